@@ -40,6 +40,9 @@ var Runners = map[string]func(tier string) int{
 	"C04": func(t string) int { return RunUnpackSafety("C04", t) },
 	"C15": RunC15,
 	"C03": RunC03,
+	"C12": RunC12,
+	"C18": RunC18,
+	"C09": RunC09,
 	"C10": RunC10,
 	"C17": RunC17,
 	"C13": RunC13,
